@@ -54,6 +54,7 @@ def setup(rep, tier):
     rep.minimum('R03.9', 1)
     rep.minimum('R03.10', 1)
     rep.minimum('R03.11', 30)
+    rep.minimum('R03.12', 2)
     rep.minimum('R03.4', 2)
     rep.trusted.append('doc/draft-ietf-codec-opus.xml (RFC 6716 source text) as the table oracle')
 
@@ -680,7 +681,99 @@ def r03_11(rep, prog):
     return n
 
 
+# ------------------------------------------------------------------ R03.12
+def r03_12(rep, prog):
+    """a remembered configuration is compared before it is overwritten.  The decoder keeps the previous packet's
+    configuration in state fields (`psDec->nChannelsInternal = decControl->nChannelsInternal`) and hands state over when a
+    test on the old and the new value fires (mono -> stereo: clear the predictor and the side history, copy the resampler).
+    If the update runs first, the test compares the value with itself: the hand-over block is dead code although every
+    line of it is still there.  Decided per store `state field := plain read R` of the decoder layer: over all valuations of
+    the compared quantities (constants the code compares them with, plus one fresh value) a block that is reachable when the
+    field is free but unreachable under every valuation with field == R, behind branch conditions that all execute after the
+    store, is a violation.  Conditions that can still reach the store see the old value and are left unknown."""
+    import itertools
+    n = 0
+    for f in prog.functions_all:
+        if not (f.file.startswith('silk/dec') or f.file in ('src/opus_decoder.c', 'celt/celt_decoder.c', 'silk/decoder_set_fs.c')):
+            continue
+        condkeys = {}
+        for b in f.blocks:
+            t = f.blocks[b].get('term')
+            if t and 'cond' in t:
+                for x in sx.walk(t['cond']):
+                    if sx.kind(x) in ('field', 'param', 'local'):
+                        condkeys.setdefault(sx.key(x), set()).add(b)
+        stores = {}
+        for bid, st in f.stmts():
+            for x in sx.walk(st):
+                if x[0] == 'assign' and sx.kind(sx.strip(x[1])) == 'field':
+                    stores.setdefault(sx.key(sx.strip(x[1])), []).append((bid, x))
+        ties = []
+        for kf, sts in stores.items():
+            if len(sts) != 1 or kf not in condkeys:
+                continue
+            bid, x = sts[0]
+            r = sx.strip(x[2])
+            if sx.kind(r) not in ('field', 'param') or sx.key(r) not in condkeys or sx.key(r) in stores or sx.key(r) == kf:
+                continue
+            ties.append((kf, sx.key(r), bid, x))
+        if not ties:
+            continue
+        cf = cfgm.CFG(f)
+        # constants the tied quantities are compared with
+        consts = set()
+        for b in f.blocks:
+            t = f.blocks[b].get('term')
+            if t and 'cond' in t:
+                for x in sx.walk(t['cond']):
+                    if sx.kind(x) == 'bin' and x[1] in ('==', '!=', '<', '<=', '>', '>='):
+                        for a_, c_ in ((x[2], x[3]), (x[3], x[2])):
+                            if sx.key(sx.strip(a_)) in [t_[0] for t_ in ties] + [t_[1] for t_ in ties] and sx.int_val(sx.strip(c_)) is not None:
+                                consts.add(sx.int_val(sx.strip(c_)))
+        if not consts or len(consts) > 4 or len(ties) > 3:
+            continue
+        dom = sorted(consts) + [max(consts) + 1]
+        fkeys = [t_[0] for t_ in ties]
+        rkeys = sorted(set(t_[1] for t_ in ties), key=str)
+        # every live condition on a tied field must execute after its store
+        ok = True
+        for kf, kr, bid, x in ties:
+            for b in condkeys[kf]:
+                if bid in cf.reachable_from(b) or b == bid:
+                    continue        # sees the old value: left unknown by feasible_blocks
+                if not cf.dominates(bid, b):
+                    ok = False
+        if not ok:
+            continue
+        free, tied = set(), set()
+        for rv in itertools.product(dom, repeat=len(rkeys)):
+            base = dict(zip(rkeys, rv))
+            tv = dict(base)
+            for kf, kr, _, _ in ties:
+                tv[kf] = base[kr]
+            tied |= decide.feasible_blocks(cf, tv)
+            for fv in itertools.product(dom, repeat=len(fkeys)):
+                v = dict(base)
+                v.update(zip(fkeys, fv))
+                free |= decide.feasible_blocks(cf, v)
+        dead = sorted((free - tied), reverse=True)
+        dead = [b for b in dead if f.blocks[b]['stmts'] and all(cf.dominates(t_[2], b) for t_ in ties)]
+        n += 1
+        rep.functions.add(f.name)
+        names = ', '.join('`%s`' % sx.show(t_[3])[:60] for t_ in ties)
+        inst = '%s:%s compares remembered configuration before overwriting it (%d field(s))' % (prog.config, f.name, len(ties))
+        where = '%s:%s' % (f.file, sx.line(ties[0][3]))
+        if dead:
+            ln = [sx.line(s_) for s_ in f.blocks[dead[0]]['stmts'] if sx.line(s_)]
+            rep.violated('R03.12', inst, where, 'after %s the block at line %s can no longer run: its guard compares the stored field with the value it was just given (reachable for %d valuation(s) of old/new value, for none once old == new). The hand-over it performs (state cleared / copied on a configuration change) is skipped' % (
+                names, ln[0] if ln else '?', len(dom) ** (len(rkeys) + len(fkeys))), key='%s:tied-dead:%s' % (f.name, ','.join(str(t_[0][-1]) for t_ in ties)))
+        else:
+            rep.holds('R03.12', inst, where, '%s; %d x %d valuations, no block reachable only when old != new lies after the store' % (names, len(dom) ** len(rkeys), len(dom) ** len(fkeys)))
+    return n
+
+
 def check(rep, prog, tier):
+    r03_12(rep, prog)
     r03_11(rep, prog)
     r03_10(rep, prog)
     tables, digest = rfc.load()
